@@ -508,7 +508,77 @@ func c08raceBody() {
 	sched.SetOutcome("ok")
 }
 
+// (S): the three discovery streams are three goroutines in the product; their handlers race with each other
+// and with the controller loop. The oracle is order independent: once everything is processed the running
+// processors are exactly what the store's final table implies.
+func c08streamsBody() {
+	plans := [][][]c08op{
+		{{{Kind: "dep+", Svc: "s1"}, {Kind: "dep-", Svc: "s1"}}, {{Kind: "cfg", Svc: "s1", Cfg: "v1"}}, {{Kind: "ep", Svc: "s1", Added: "a"}}},
+		{{{Kind: "dep-", Svc: "s1"}, {Kind: "dep+", Svc: "s1"}}, {{Kind: "cfg", Svc: "s1", Cfg: "v2"}}, {{Kind: "ep", Svc: "s1", Added: "b", Removed: "a"}}},
+		{{{Kind: "dep-", Svc: "s1"}}, {{Kind: "cfg", Svc: "s1", Cfg: "v2"}, {Kind: "cfg", Svc: "s1", Cfg: "v1"}}, {{Kind: "ep", Svc: "s1", Added: "b"}, {Kind: "ep", Svc: "s1", Removed: "a"}}},
+	}
+	pi := sched.Choose(sched.ClsInput, len(plans), "plan")
+	plan := plans[pi]
+	w := c08setup(false)
+	w.ctl.Start()
+	if pi > 0 {
+		// the service is already running with endpoint a
+		for _, o := range []c08op{{Kind: "dep+", Svc: "s1"}, {Kind: "cfg", Svc: "s1", Cfg: "v1"}, {Kind: "ep", Svc: "s1", Added: "a"}} {
+			w.feed(o)
+		}
+		sched.WaitQuiescent()
+	}
+	names := []string{"dependency-stream", "config-stream", "endpoint-stream"}
+	for i, ops := range plan {
+		ops := ops
+		sched.GoNamed(names[i], func() {
+			for _, o := range ops {
+				w.feed(o)
+			}
+		})
+	}
+	sched.WaitQuiescent()
+	// what the store's final table implies
+	dump := w.cfg.VerifDump(cfgName)
+	want := map[string][2]string{}
+	for name, d := range dump {
+		if (d[0] == "v1" || d[0] == "v2") && d[1] != "nil" {
+			var eps []string
+			for _, ip := range strings.Split(strings.TrimSuffix(d[1], ","), ",") {
+				if ip != "" {
+					eps = append(eps, ip+":80")
+				}
+			}
+			sort.Strings(eps)
+			want[name] = [2]string{d[0], strings.Join(eps, ",")}
+		}
+	}
+	got := w.running()
+	for name, e := range want {
+		g, ok := got[name]
+		switch {
+		case !ok:
+			sched.Fail("configured-service-not-running / concurrent streams", fmt.Sprintf("plan %d: store has %s=%v, running %v", pi, name, e, got))
+		case g != e:
+			sched.Fail("processor-differs-from-store / concurrent streams", fmt.Sprintf("plan %d: %s runs %v, store says %v", pi, name, g, e))
+		}
+	}
+	for name := range got {
+		if _, ok := want[name]; !ok {
+			sched.Fail("processor-running-for-service-not-in-store / concurrent streams", fmt.Sprintf("plan %d: %s is running, store table: %v", pi, name, dump))
+		}
+	}
+	sched.SetOutcome(fmt.Sprintf("plan=%d running=%d", pi, len(got)))
+}
+
 func init() {
+	sched.Register(&sched.Scenario{Name: "C08/streams", Setup: func(tier string) (sched.Config, func()) {
+		b := sched.Bounds{P: 2, F: 1, Sel: 1}
+		if tier == "thorough" {
+			b = sched.Bounds{P: 3, F: 2, Sel: 1}
+		}
+		return sched.Config{Bounds: b, Iterative: true, MaxSteps: 100000}, c08streamsBody
+	}})
 	sched.Register(&sched.Scenario{Name: "C08/histories", Custom: c08histories, ReplayCustom: func(in json.RawMessage) []sched.Failure {
 		var cs c08case
 		json.Unmarshal(in, &cs)
